@@ -225,12 +225,22 @@ func c04Body(d c04Desc, tier string) func() {
 		p := &rawPeer{c: c}
 		if d.Params {
 			for _, m := range c04ParamMethods() {
-				for _, ps := range c04ParamShapes {
+				for pi, ps := range append(append([]string(nil), c04ParamShapes...), "", "", `{}`) {
 					log = log[:0]
 					mb, _ := json.Marshal(m)
 					f := `{"method":` + string(mb)
 					if ps != "" {
 						f += `,"parameters":` + ps
+					}
+					// the last three rounds carry a flag: where a call goes, and that the connection stays usable
+					// after a standard error reply, does not depend on it either
+					switch pi - len(c04ParamShapes) {
+					case 0:
+						f += `,"more":true`
+					case 1:
+						f += `,"upgrade":true`
+					case 2:
+						f += `,"upgrade":true,"more":false`
 					}
 					c.Write([]byte(f + "}\x00"))
 					r, ok := p.readFrame()
